@@ -14,14 +14,15 @@ import (
 
 // G is a managed goroutine.
 type G struct {
-	ID      int
-	Name    string
-	wake    chan struct{}
-	done    bool
-	blocked func() bool // nil: runnable; otherwise it may proceed once this returns true
-	why     string
-	poller  bool // blocked in a select round (re-polls when anything changed)
-	timers  []*timer
+	ID         int
+	Name       string
+	wake       chan struct{}
+	done       bool
+	blocked    func() bool // nil: runnable; otherwise it may proceed once this returns true
+	why        string
+	poller     bool // blocked in a select round (re-polls when anything changed)
+	idleWaiter bool
+	timers     []*timer
 }
 
 type timer struct {
@@ -398,6 +399,36 @@ func block(kind, why string, pred func() bool) {
 	g.blocked = pred
 	g.why = why
 	s.sched(g)
+}
+
+// CurrentID returns the id of the managed goroutine that holds the turn (-1 outside Run).
+func CurrentID() int {
+	if S == nil || S.cur == nil {
+		return -1
+	}
+	return S.cur.ID
+}
+
+// WaitIdle blocks the caller until no other managed goroutine can run and no timer is pending:
+// the system is quiescent apart from the caller.
+func WaitIdle() {
+	s, g := me()
+	block("wait-idle", "quiescence of all other goroutines", func() bool {
+		for _, t := range s.timers {
+			if !t.fired && !t.cancelled {
+				return false
+			}
+		}
+		for _, o := range s.gs {
+			if o == g || o.done {
+				continue
+			}
+			if o.blocked == nil || (!o.idleWaiter && o.blocked()) {
+				return false
+			}
+		}
+		return true
+	})
 }
 
 // Go starts f as a managed goroutine.
